@@ -42,6 +42,15 @@ RELEVANT = {
     "utils.py": ["C11", "C12", "C19", "C07", "C05", "C15", "C10", "C01"],
     "validators.py": ["C11", "C12", "C19", "C01"],
 }
+FIRST_BY_FUNC = [
+    (("__iter__", "__call__", "__eq__", "__repr__", "__str__", "keys", "values", "items", "get", "__getitem__", "__len__",
+      "__contains__", "_load", "__reversed__", "__lt__", "__le__", "__gt__", "__ge__"), ["C02", "C03", "C17"]),
+    (("_validate", "__init__", "_from_base", "is_base_type"), ["C11", "C16", "C18", "C12"]),
+    (("_acquire_locks", "_release_locks", "__enter__", "__exit__", "_thread_lock", "filename", "_lock_id",
+      "enable_multithreading", "disable_multithreading", "__init_subclass__"), ["C10", "C09", "C08"]),
+    (("_update",), ["C02", "C04", "C11"]),
+    (("__getattr__", "__setattr__", "__delattr__"), ["C18"]),
+]
 CMP = {ast.Lt: "<=", ast.LtE: "<", ast.Gt: ">=", ast.GtE: ">", ast.Eq: "!=", ast.NotEq: "==", ast.Is: "is not",
        ast.IsNot: "is", ast.In: "not in", ast.NotIn: "in"}
 
@@ -158,6 +167,39 @@ def cmd_gen(path):
     print(len(uniq), "mutants", by)
 
 
+def cmd_rebase(path):
+    """Regenerate the mutants on the current HEAD and carry the stage-1/2 results over (same file, function,
+    operator, old and new text, same ordinal among identical ones)."""
+    old = json.load(open(path))
+    muts = []
+    for rel in FILES:
+        muts += gen_file(rel)
+
+    def keyed(ms):
+        cnt, out = {}, {}
+        for m in ms:
+            k0 = (m["file"], m["func"], m["op"], m["old"], m["new"])
+            cnt[k0] = cnt.get(k0, 0) + 1
+            out[k0 + (cnt[k0],)] = m
+        return out
+
+    ko = keyed(old["mutants"])
+    seen, uniq = set(), []
+    for k, m in keyed(muts).items():
+        if (m["file"], m["src"]) in seen:
+            continue
+        seen.add((m["file"], m["src"]))
+        m["id"] = len(uniq)
+        if k in ko:
+            for f in ("tests", "tests_line", "tests_s"):
+                if f in ko[k]:
+                    m[f] = ko[k][f]
+        uniq.append(m)
+    head = subprocess.check_output(["git", "-C", REPO, "rev-parse", "HEAD"], text=True).strip()
+    json.dump({"head": head, "mutants": uniq}, open(path, "w"))
+    print(len(uniq), "mutants on", head[:8], "-", sum(1 for m in uniq if "tests" in m), "carry a stage-1 result")
+
+
 def mkwt(name):
     wt = "/tmp/wt/" + name
     subprocess.run(["git", "-C", REPO, "worktree", "remove", "--force", wt], capture_output=True)
@@ -229,11 +271,19 @@ def cmd_checks(path, limit, allchecks=False):
             open(f, "w").write(m["src"])
             killed, ran = None, []
             try:
-                order = RELEVANT[os.path.basename(m["file"])]
+                order = list(RELEVANT[os.path.basename(m["file"])])
+                first = []
+                if m["op"] == "drop-with":
+                    first += ["C09", "C13", "C10"]
+                for funcs, cs in FIRST_BY_FUNC:
+                    if m["func"] in funcs:
+                        first += cs
+                first = [c for i, c in enumerate(first) if c in order and c not in first[:i]]
+                order = first + [c for c in order if c not in first]
                 if allchecks:
                     order = order + [c for c in ["C%02d" % i for i in range(1, 20)] if c not in order]
                 for c in order:
-                    env = dict(os.environ, VERIF_REPO=wt, VERIF_CONFIRM="0")
+                    env = dict(os.environ, VERIF_REPO=wt, VERIF_CONFIRM="0", VERIF_FAILFAST="1")
                     t0 = time.time()
                     try:
                         p = subprocess.run([os.path.join(verif, "run"), "check", c, "quick"], cwd=verif, capture_output=True,
@@ -262,6 +312,8 @@ if __name__ == "__main__":
     a = sys.argv[1:]
     if a[0] == "gen":
         cmd_gen(a[1])
+    elif a[0] == "rebase":
+        cmd_rebase(a[1])
     elif a[0] == "tests":
         cmd_tests(a[1], int(a[a.index("-j") + 1]) if "-j" in a else 12)
     elif a[0] == "checks":
